@@ -10,10 +10,10 @@ from sa.poly import RF
 from sa.selftest import Edit, Variant
 from sa.sym import ClassRef, Cond, Ext, Interp, PyCallable, Rec, SymStr, Undecided, Unknown, closure_of, explore, method_of, to_rf
 
-from sa.texts import T as _T
+from sa.texts import T as _TX
 
-EXPLANATION = _T["C05"]["explanation"] + " Not decided: " + _T["C05"]["not_decided"] + "."
-ASSUMPTIONS = _T["C05"]["assumptions"]
+EXPLANATION = _TX["C05"]["explanation"] + " Not decided: " + _TX["C05"]["not_decided"] + "."
+ASSUMPTIONS = _TX["C05"]["assumptions"]
 P = "C05"
 S = RF.sym
 
